@@ -27,6 +27,9 @@ var c03Kids = []string{
 	"<span></span>",
 	`<a name="x"></a>`,
 	"<!-- c -->",
+	`<a href="javascript:void(0)">%w <b>%x</b> %y</a> `,
+	`<font color="red">%w <b>%x</b> %y</font> `,
+	`<a href="/u">%w <i>%x</i></a> `,
 }
 
 var c03Containers = [][2]string{
@@ -36,6 +39,7 @@ var c03Containers = [][2]string{
 	{"<blockquote>", "</blockquote>"},
 	{"<table><tr><td>", "</td></tr></table>"},
 	{"<div>", "</div>"},
+	{"<div><p>lead words there</p></div><table><caption>cap</caption><thead><tr><th>hx</th><th>hy</th></tr></thead><tbody><tr><td>", "</td><td>cell</td></tr></tbody></table>"}, // data table
 }
 
 type c03Sym struct {
@@ -68,12 +72,16 @@ func HarnessC03Paragraph() {
 	var words []string
 	desc := ""
 	for i := 0; i < n; i++ {
-		k := vx.Choose("kid", nk)
+		k := vx.Param("from", 0) + vx.Choose("kid", nk)
 		w := "pw" + string(rune('a'+i)) + "x"
-		if strings.Contains(c03Kids[k], "%w") {
-			words = append(words, w)
+		kid := c03Kids[k]
+		for _, ph := range []string{"%w", "%x", "%y"} {
+			if strings.Contains(kid, ph) {
+				words = append(words, w+ph[1:])
+				kid = strings.Replace(kid, ph, w+ph[1:], 1)
+			}
 		}
-		body += strings.Replace(c03Kids[k], "%w", w, 1)
+		body += kid
 		desc += string(rune('A' + k))
 	}
 	tail := "<div><p>tail words here</p></div>"
